@@ -1,34 +1,49 @@
 (* C01 - property theorems only. *)
 From Coq Require Import String List Ring.
-Require Import PV.Num PV.Sort PV.Spec PV.Impl PV.Ref PV.InterpQ PV.RefineRates PV.RefineTop PV.EngineRun PV.RefineWitness.
+Require Import PV.Num PV.Sort PV.Spec PV.Impl PV.Ref PV.InterpQ PV.RefineRates PV.RefineTop PV.RefineLayout PV.EngineRun PV.RefineWitness.
 Import ListNotations.
 
 (* For EVERY accepted specification (any channels/samples/bins, any subset of the seven modifier types, any sharing of
    names), every parameter vector, any interpolation functions and any commutative ring of numbers: the expected data
    of the mega-channel implementation model is the HistFactory template -- per channel in sorted order, per bin: the sum
    over that channel's samples of (product of the sample's own multiplicative factors) x (nominal + sum of its own additive
-   shifts), each addressed by the NAME of its parameter, per-sample then per-bin clip.  Premises: the schema's data shapes,
-   the per-sample clip not positive (see the refuted statement below), and the access-field layout premise that the
-   check evaluates in Coq for every generated model (deriving it from build = Ok is future work: hence _partial). *)
-Theorem C01_expected_data_refines_partial : forall N,
+   shifts), each addressed by the NAME of its parameter, per-sample then per-bin clip.  Premises: acceptance (build = Ok),
+   the schema's data shapes, and the per-sample clip not positive (see the refuted statement below).  The access-field
+   layout is no longer a premise: it is derived from acceptance (C01_accepted_layout, RefineParams.v / RefineLayout.v). *)
+Theorem C01_expected_data_refines : forall N,
   ring_theory (n0 N) (n1 N) (nadd N) (nmul N) (nsub N) (nopp N) eq ->
   forall interp_add interp_mul (sp : spec N) st md pars,
-  build N sp = Ok md -> shape_ok N sp -> clip_guard N st -> layout_okb N sp md = true ->
+  build N sp = Ok md -> shape_ok N sp -> clip_guard N st ->
   expected_actualdata N interp_add interp_mul sp st md pars =
   ref_expected N interp_add interp_mul (normsys_code N st) (histosys_code N st) (clip_sample N st) (clip_bin N st) sp
                (theta N md (parf N pars)).
-Proof. exact expected_refines_accepted. Qed.
+Proof. exact expected_refines_accepted_full. Qed.
 (* the executed instance (exact rationals) and the analytic instance (reals) *)
 Theorem C01_expected_data_refines_Qc : forall ia im (sp : spec QcNum) st md pars,
-  build QcNum sp = Ok md -> shape_ok QcNum sp -> clip_guard QcNum st -> layout_okb QcNum sp md = true ->
+  build QcNum sp = Ok md -> shape_ok QcNum sp -> clip_guard QcNum st ->
   expected_actualdata QcNum ia im sp st md pars =
   ref_expected QcNum ia im (normsys_code QcNum st) (histosys_code QcNum st) (clip_sample QcNum st) (clip_bin QcNum st) sp (theta QcNum md (parf QcNum pars)).
-Proof. exact expected_refines_Qc. Qed.
+Proof. exact expected_refines_full_Qc. Qed.
 Theorem C01_expected_data_refines_R : forall ia im (sp : spec RNum) st md pars,
-  build RNum sp = Ok md -> shape_ok RNum sp -> clip_guard RNum st -> layout_okb RNum sp md = true ->
+  build RNum sp = Ok md -> shape_ok RNum sp -> clip_guard RNum st ->
   expected_actualdata RNum ia im sp st md pars =
   ref_expected RNum ia im (normsys_code RNum st) (histosys_code RNum st) (clip_sample RNum st) (clip_bin RNum st) sp (theta RNum md (parf RNum pars)).
-Proof. exact expected_refines_R. Qed.
+Proof. exact expected_refines_full_R. Qed.
+(* every accepted specification has the access-field layout the template addresses: shapefactor / shapesys entries are
+   pstart name + b, staterror entries pstart name + (bins of the declaring channels sorting before the channel) + b;
+   boolean form = what the check still evaluates for every generated model (now a cross-check of this theorem) *)
+Theorem C01_accepted_layout : forall N (sp : spec N) md, build N sp = Ok md -> layout_ok N sp md.
+Proof. exact accepted_layout. Qed.
+Theorem C01_accepted_layout_bool : forall N (sp : spec N) md, build N sp = Ok md -> layout_okb N sp md = true.
+Proof. exact layout_okb_accepted. Qed.
+(* non-vacuity: a 3-channel specification (2/3/2 bins) with a staterror shared by two samples over two channels of different
+   bin counts, a shapefactor shared by two channels, a shapesys, normsys, histosys, lumi, normfactor is accepted, with this
+   parameter layout *)
+Theorem C01_layout_example_accepted :
+  exists md, build QcNum layout_example_spec = Ok md /\ md_npars QcNum md = 13 /\
+    map (fun p => (p_name QcNum p, p_start QcNum p, p_n QcNum p)) (md_psets QcNum md) =
+    [("hs", 0, 1); ("lumi", 1, 1); ("mu", 2, 1); ("ns", 3, 1); ("sf", 4, 2); ("uncorr", 6, 2); ("mcstat", 8, 5)]%string.
+Proof. exact layout_example_accepted. Qed.
 (* per cell, for any channel of the spec and any bin: the rate formula *)
 Theorem C01_rate_refines : forall N, ring_theory (n0 N) (n1 N) (nadd N) (nmul N) (nsub N) (nopp N) eq ->
   forall interp_add interp_mul (sp : spec N) st md par,
@@ -53,9 +68,12 @@ Theorem C01_sorted_channels_listing_invariant : forall (l l' : list string),
   (forall x, In x l <-> In x l') -> sort_uniq l = sort_uniq l'.
 Proof. exact sort_uniq_ext. Qed.
 
-Print Assumptions C01_expected_data_refines_partial.
+Print Assumptions C01_expected_data_refines.
 Print Assumptions C01_expected_data_refines_Qc.
 Print Assumptions C01_expected_data_refines_R.
+Print Assumptions C01_accepted_layout.
+Print Assumptions C01_accepted_layout_bool.
+Print Assumptions C01_layout_example_accepted.
 Print Assumptions C01_rate_refines.
 Print Assumptions C01_clip_absent_sample_refuted.
 Print Assumptions C01_sorted_channels_listing_invariant.
